@@ -469,7 +469,8 @@ def call_asgi(app, scope):
 def wsgi_leaf(i, seen):
     def app(environ, start_response):
         from baize.wsgi import Request
-        seen.append((i, Request(environ).path_params))
+        pp = Request(environ).path_params
+        seen.append((i, pp, environ, canon_params(pp)))
         start_response("200 OK", [("Content-Type", "text/plain")])
         return [b"leaf %d" % i]
     return app
@@ -478,7 +479,8 @@ def wsgi_leaf(i, seen):
 def asgi_leaf(i, seen):
     async def app(scope, receive, send):
         from baize.asgi import Request
-        seen.append((i, Request(scope, receive, send).path_params))
+        pp = Request(scope, receive, send).path_params
+        seen.append((i, pp, scope, canon_params(pp)))
         await send({"type": "http.response.start", "status": 200, "headers": [(b"content-type", b"text/plain")]})
         await send({"type": "http.response.body", "body": b"leaf %d" % i})
     return app
@@ -525,9 +527,23 @@ def impl_route(case):
     for pp in prelude:          # dispatch must not depend on what the router was asked before
         call_wsgi(apps[0], dict(environ, PATH_INFO=pp))
         call_asgi(apps[1], dict(scope, path=pp))
+    # an endpoint may look at its path parameters late (an ASGI endpoint that awaits first, a WSGI body produced lazily):
+    # what the earlier requests were handed is kept and read again after the last request
+    earlier = [[(i, snap, rq) for i, _, rq, snap in seen] for seen in (seen_w, seen_a)]
     del seen_w[:]
     del seen_a[:]
     out = [observe(call_wsgi(apps[0], environ), seen_w), observe(call_asgi(apps[1], scope), seen_a)]
+    for k, recs in enumerate(earlier):
+        for i, snap, rq in recs:
+            if k == 0:
+                from baize.wsgi import Request as WReq
+                now = canon_params(WReq(rq).path_params)
+            else:
+                from baize.asgi import Request as AReq
+                now = canon_params(AReq(rq).path_params)
+            if now != snap and out[k][0] != "weird":
+                out[k] = ["weird", "the path parameters of an earlier request of the same Router (endpoint %d) read %s when it was "
+                                   "dispatched and %s after a later request" % (i, rs(snap), rs(now))]
     out.append([canon_match(r, path) for r in apps[0]._route_array])
     return out
 
